@@ -4,6 +4,6 @@ from kernels import K
 _BASE = ['src/Calculators/ACalculator.cpp', 'src/Calculators/ACalcDbToDb.cpp', 'src/Calculators/ACalcDbVarCreator.cpp',
          'src/Basic/AException.cpp', 'src/Basic/VectorHelper.cpp', 'src/Enum/Enums.cpp']
 K('C19.p.1', property='C19', engine='symex', harness='C19/proto.cpp', entry='k_proto_dbtodb', tus=_BASE,
-  defines={'all': {'VF_NPRE': 3, 'VF_NRUN': 1}},
+  defines={'all': {'VF_NPRE': 3, 'VF_NRUN': 1, 'G_MAXID': 9}},
   bounds={'quick': 'x'}, timeout_ms={'quick': 120000}, validate={'quick': 20},
   what='x', out='x', assumptions=[], stubs=[])
